@@ -45,6 +45,13 @@ let dispatch f args = match f, args with
      | Ret (Some o) -> show_outcome (fun tx -> show_bytes (utf32_of_text tx)) (run_text (arg_n net) o)
      | Ret None -> "N"
      | other -> show_result other)
+  (* a history: the same text offered to a list of (entry point, network) calls "[i<e>:i<n>,...]"; the model's answer
+     for each call is the answer for a fresh text (C18_history_independent: the shared decode cache changes nothing) *)
+  | "seq", [t; calls] ->
+    let tx = text_of_utf32 (arg_bytes t) in
+    show_list (fun c -> match String.split_on_char ':' c with
+        | [e; net] -> show_result (run_entry raw (arg_n net) (arg_n e) tx)
+        | _ -> failwith "seq element") (arg_list (fun x -> x) calls)
   | "table_size", [] -> show_n drv_table_size
   | "kinds_separated", [net] -> show_bool (drv_kinds_separated (arg_n net))
   | _ -> failwith ("unknown function " ^ f)
